@@ -80,6 +80,25 @@ def _cls(tree, name, rel):
     c = next((n for n in tree.body if isinstance(n, ast.ClassDef) and n.name == name), None)
     if c is None:
         raise TranslatorError(f"{rel}: class {name} not found")
+    # module-level NAME = <int literal>, bound exactly once and not one of the constants the recognisers know by name:
+    # such a name is resolved to its literal before anything is recognised (magic number -> named constant is a no-op)
+    counts, vals = {}, {}
+    for n in ast.walk(tree):
+        if isinstance(n, ast.Name) and isinstance(n.ctx, (ast.Store, ast.Del)):
+            counts[n.id] = counts.get(n.id, 0) + 1
+        if isinstance(n, (ast.Global, ast.Nonlocal)):
+            for g in n.names:
+                counts[g] = counts.get(g, 0) + 2
+    for n in tree.body:
+        tgt, val = None, None
+        if isinstance(n, ast.Assign) and len(n.targets) == 1 and isinstance(n.targets[0], ast.Name):
+            tgt, val = n.targets[0].id, n.value
+        elif isinstance(n, ast.AnnAssign) and isinstance(n.target, ast.Name) and n.value is not None:
+            tgt, val = n.target.id, n.value
+        if tgt and isinstance(val, ast.Constant) and isinstance(val.value, int) and not isinstance(val.value, bool) \
+                and counts.get(tgt) == 1 and tgt not in CONSTS_COMMUNITY and tgt not in CONSTS_ROUTING:
+            vals[tgt] = val
+    c._module_int_consts = vals
     return c
 
 
@@ -87,7 +106,15 @@ def _fn(cls, name, rel):
     f = next((n for n in cls.body if isinstance(n, (ast.FunctionDef, ast.AsyncFunctionDef)) and n.name == name), None)
     if f is None:
         raise TranslatorError(f"{rel}: {cls.name}.{name} not found")
-    return _inline_aliases(_inline_helpers(f, cls))
+    f = _inline_aliases(_inline_helpers(f, cls))
+    consts = getattr(cls, "_module_int_consts", {})
+    local = {x.id for x in ast.walk(f) if isinstance(x, ast.Name) and isinstance(x.ctx, ast.Store)} \
+        | {a.arg for a in f.args.args + f.args.kwonlyargs}
+    consts = {k: v for k, v in consts.items() if k not in local}
+    if consts:
+        import copy
+        f = ast.fix_missing_locations(_Subst(consts).visit(copy.deepcopy(f)))
+    return f
 
 
 # ---- meaning-preserving pre-passes: private helpers inlined, hoisted locals substituted back -------------------------
@@ -674,10 +701,48 @@ REF_UNSERIALIZE_INLINE = REF_UNSERIALIZE.replace("        sig = value[-sig_len:]
     "value[:-sig_len], sig)", "value[:-sig_len], value[-sig_len:])")
 
 
+# the same decision written with guard clauses (early `return None` for an unknown entry type and for a signature that does
+# not verify); the slices may be named in one tuple assignment, in two assignments, or written in place
+_UNS_HEAD = """
+def unserialize_value(self, value):
+    if value[0] == DHT_ENTRY_STR:
+        strpayload, _ = self.serializer.unpack_serializable(StrPayload, value, offset=1)
+        return strpayload.data, None, 0
+    if value[0] != DHT_ENTRY_STR_SIGNED:
+        return None
+    payload, _ = self.serializer.unpack_serializable(SignedStrPayload, value, offset=1)
+    public_key = self.crypto.key_from_public_bin(payload.public_key)
+    sig_len = self.crypto.get_signature_length(public_key)
+"""
+_UNS_TAILS = ["""    signed_part, sig = value[:-sig_len], value[-sig_len:]
+    if not self.crypto.is_valid_signature(public_key, signed_part, sig):
+        return None
+    return payload.data, public_key.key_to_bin(), payload.version
+""", """    signed_part = value[:-sig_len]
+    sig = value[-sig_len:]
+    if not self.crypto.is_valid_signature(public_key, signed_part, sig):
+        return None
+    return payload.data, public_key.key_to_bin(), payload.version
+""", """    sig = value[-sig_len:]
+    if not self.crypto.is_valid_signature(public_key, value[:-sig_len], sig):
+        return None
+    return payload.data, public_key.key_to_bin(), payload.version
+""", """    if not self.crypto.is_valid_signature(public_key, value[:-sig_len], value[-sig_len:]):
+        return None
+    return payload.data, public_key.key_to_bin(), payload.version
+""", """    sig = value[-sig_len:]
+    if self.crypto.is_valid_signature(public_key, value[:-sig_len], sig):
+        return payload.data, public_key.key_to_bin(), payload.version
+    return None
+"""]
+REF_UNSERIALIZE_GUARDS = [_UNS_HEAD + t for t in _UNS_TAILS]
+
+
 def _unserialize(cls):
     """up to renaming of locals, keyword/positional arguments, comments and logging"""
     fn = _fn(cls, "unserialize_value", COMMUNITY)
-    if not (_same_up_to_renaming(fn, REF_UNSERIALIZE) or _same_up_to_renaming(fn, REF_UNSERIALIZE_INLINE)):
+    if not (_same_up_to_renaming(fn, REF_UNSERIALIZE) or _same_up_to_renaming(fn, REF_UNSERIALIZE_INLINE)
+            or any(_same_up_to_renaming(fn, r) for r in REF_UNSERIALIZE_GUARDS)):
         raise TranslatorError("unserialize_value is not the recognised shape: plain branch returns (data, None, 0); signed "
                               "branch returns (data, canonical encoding of the parsed key, version) only if "
                               "is_valid_signature(public_key, value[:-sig_len], value[-sig_len:])")
